@@ -31,28 +31,55 @@ func isOpenCall(name string) bool {
 
 func SocketFns(p *Program) []*SocketFn {
 	var out []*SocketFn
+	up := p.SSAPkg("uhppote")
+	// the socket functions are the entry points of the package that (through in-package helpers) open a
+	// socket: a function that is only a helper of another such function is walked as part of its callers
+	reach := map[*ssa.Function]string{}
 	for _, fn := range p.AllFuncs {
-		if fn.Pkg == nil || fn.Pkg != p.SSAPkg("uhppote") || fn.Parent() != nil {
+		if fn.Pkg == nil || fn.Pkg != up || fn.Parent() != nil {
 			continue
 		}
 		opens := ""
-		for _, b := range fn.Blocks {
-			for _, in := range b.Instrs {
-				if c, ok := in.(ssa.CallInstruction); ok {
-					if f := c.Common().StaticCallee(); f != nil && isOpenCall(calleeName(f)) {
-						opens = calleeName(f)
-					}
-				}
+		reachesCall(fn, func(name string) bool {
+			if isOpenCall(name) {
+				opens = name
+				return true
+			}
+			return false
+		}, map[*ssa.Function]bool{})
+		if opens != "" {
+			reach[fn] = opens
+		}
+	}
+	helper := map[*ssa.Function]bool{}
+	var mark func(fn *ssa.Function, seen map[*ssa.Function]bool)
+	mark = func(fn *ssa.Function, seen map[*ssa.Function]bool) {
+		if seen[fn] {
+			return
+		}
+		seen[fn] = true
+		for _, f := range staticCallees(fn) {
+			if f.Parent() == nil && reach[f] != "" {
+				helper[f] = true
+			}
+			if inModule(f) {
+				mark(f, seen)
 			}
 		}
-		if opens == "" {
+	}
+	for fn := range reach {
+		mark(fn, map[*ssa.Function]bool{})
+	}
+	for _, fn := range p.AllFuncs {
+		opens := reach[fn]
+		if opens == "" || helper[fn] {
 			continue
 		}
 		sf := &SocketFn{Fn: fn, Name: calleeName(fn), Opens: opens, IsDial: strings.Contains(opens, "Dial")}
 		sf.Listen = fn.Signature.Results().Len() == 1
 		w := NewWalker(p)
 		w.LoopFuel = 2
-		w.Inline = func(f *ssa.Function, d int) bool { return false }
+		w.Inline = inlineHelpers([]*ssa.Package{up}, nil)
 		args := make([]*Term, len(fn.Params))
 		for i, prm := range fn.Params {
 			args[i] = &Term{Op: "param", Name: prm.Name(), Typ: prm.Type()}
